@@ -1,5 +1,5 @@
 //! C14 — merging PSETs never loses information, never panics, and is order-insensitive.
-use super::c08::{apply_update_at, extractable_pset, Update, UPDATES};
+use super::c08::{apply_update_at, extractable_pset, Update, MERGE_ONLY_UPDATES, UPDATES};
 use crate::gen::pset::{self as gp, P};
 use crate::gen::{self, Rg};
 use crate::refmodel::psetraw::{self, RawPset};
@@ -64,7 +64,7 @@ fn permutations(n: usize) -> Vec<Vec<usize>> {
 fn is_optional(u: &Update) -> bool {
     matches!(
         u,
-        Update::Sequence | Update::TapKeySig | Update::FinalScriptSig | Update::FinalScriptWitness | Update::RedeemScript | Update::WitnessScript | Update::SighashType | Update::InputExplicitAmount | Update::OutputExplicitProofs | Update::TapInternalKey | Update::OutputScripts | Update::OutputTapInternalKey
+        Update::Sequence | Update::TapKeySig | Update::FinalScriptSig | Update::FinalScriptWitness | Update::RedeemScript | Update::WitnessScript | Update::SighashType | Update::InputExplicitAmount | Update::OutputExplicitProofs | Update::TapInternalKey | Update::OutputScripts | Update::OutputTapInternalKey | Update::RequiredLocktime | Update::OutputBlinderIndex | Update::OutputBlindingKey
     )
 }
 
@@ -128,11 +128,11 @@ pub fn run(ctx: &mut Ctx) {
         let mut pool: Vec<(Update, usize, usize, u64)> = Vec::new();
         let mut taken: HashSet<(Update, usize)> = HashSet::new();
         for _ in 0..ctx.rng.gen_range(1..=8) {
-            let u = gen::pick(&mut ctx.rng, &UPDATES).clone();
+            let u = if ctx.rng.gen_range(0..8) == 0 { gen::pick(&mut ctx.rng, &MERGE_ONLY_UPDATES).clone() } else { gen::pick(&mut ctx.rng, &UPDATES).clone() };
             let ii = if anc.n_inputs() > 0 { ctx.rng.gen_range(0..anc.n_inputs()) } else { 0 };
             let oi = if anc.n_outputs() > 0 { ctx.rng.gen_range(0..anc.n_outputs()) } else { 0 };
             if is_optional(&u) {
-                let target = if matches!(u, Update::OutputExplicitProofs | Update::OutputScripts | Update::OutputTapInternalKey) { oi } else { ii };
+                let target = if matches!(u, Update::OutputExplicitProofs | Update::OutputScripts | Update::OutputTapInternalKey | Update::OutputBlinderIndex | Update::OutputBlindingKey) { oi } else { ii };
                 if !taken.insert((u.clone(), target)) {
                     continue;
                 }
